@@ -565,9 +565,10 @@ fn judge(o: &mut Outcome, h: &Hist, r: &HistOut) {
             "frames": seen.iter().map(|s| format!("{} node {} id {} md {:?} skip {} -> {} (v{:?})", s.kind, s.node, fw::hex(&s.id), s.presented_md.as_ref().map(|m| fw::hex(m)), s.skip, s.answered, s.encoded_version)).collect::<Vec<_>>()});
         o.evals(1);
         if op.hung {
-            if h.endless_unprepared {
-                // the statement promises faithfulness, not termination, under never-ending eviction
-                o.class("endless-eviction:caller-still-waiting(not-asserted)");
+            if h.endless_unprepared && op.api == "batch" {
+                // the statement promises faithfulness, not termination, under never-ending eviction: a BATCH is
+                // re-prepared and repeated for as long as the node keeps naming a statement unknown
+                o.class("endless-eviction:batch-caller-still-waiting(not-asserted)");
             } else {
                 o.violation("c14:caller-never-returned", format!("{} of pk {} did not return within 20 s ({} frames reached the nodes)", op.api, op.pk, seen.len()), replay.clone());
             }
